@@ -68,6 +68,10 @@ RECURSIVE QHarm(_, _)
 QHarm(m, p) ==                           \* sum_{i=1..m} 1/i^p
     IF m <= 0 THEN QZero ELSE QAdd(QHarm(m - 1, p), QMk(1, QPowI(m, p)))
 
+RECURSIVE QPowNat(_, _)
+LOCAL QPowNat(a, e) == IF e = 0 THEN QOne ELSE QMul(a, QPowNat(a, e - 1))
+QPow(a, e) == IF e >= 0 THEN QPowNat(a, e) ELSE QDiv(QOne, QPowNat(a, -e))   \* a^e, e any integer
+
 QStr(a) == ToString(a[1]) \o "/" \o ToString(a[2])
 
 (* Output formatting only: decimal scientific notation with `digits'       *)
